@@ -48,6 +48,35 @@ pub fn drive_de<T: PartialEq + Debug + Copy, I: DoubleEndedIterator<Item = T> + 
             _ => rng.bool(),
         };
         step += 1;
+        // every few steps: jump with nth / nth_back (these have their own implementations in some
+        // iterators and are what skip() and step_by() are built on)
+        if step % 5 == 4 && front < back {
+            let remaining = back - front;
+            let k = match rng.below(4) {
+                0 => 0,
+                1 => rng.usize_below(4),
+                2 => rng.usize_below(40),
+                // beyond the end only when little is left (otherwise every history would end early)
+                _ => {
+                    if remaining <= 48 {
+                        remaining + rng.usize_below(3)
+                    } else {
+                        rng.usize_below(300).min(remaining - 1)
+                    }
+                }
+            };
+            if rng.bool() {
+                let exp = if k < remaining { Some(expect[front + k]) } else { None };
+                chk!(rep, "nth", (what, step, front, back, k), Exp::Is(exp), it.nth(k));
+                front = if k < remaining { front + k + 1 } else { back };
+            } else {
+                let exp = if k < remaining { Some(expect[back - 1 - k]) } else { None };
+                chk!(rep, "nth_back", (what, step, front, back, k), Exp::Is(exp), it.nth_back(k));
+                back = if k < remaining { back - k - 1 } else { front };
+            }
+            chk!(rep, "len", (what, step, front, back), Exp::Is(back - front), it.len());
+            continue;
+        }
         if r {
             let exp = if front < back { Some(expect[front]) } else { None };
             chk!(rep, "next", (what, step, front, back), Exp::Is(exp), it.next());
@@ -92,6 +121,19 @@ pub fn drive_fwd<T: PartialEq + Debug + Copy, I: Iterator<Item = T>>(
             }
             extra -= 1;
         }
+        // jumps with nth: after 0, 100 and every multiple of 256 yielded elements, and now and then
+        if front < n && (front == 100 || (front > 0 && front % 256 == 0) || front % 37 == 36) {
+            let k = match front % 4 {
+                0 => 3,
+                1 => 0,
+                2 => 70,
+                _ => 255,
+            };
+            let exp = if front + k < n { Some(expect[front + k]) } else { None };
+            chk!(rep, "nth", (what, front, k), Exp::Is(exp), it.nth(k));
+            front = if front + k < n { front + k + 1 } else { n };
+            continue;
+        }
         let exp = if front < n { Some(expect[front]) } else { None };
         chk!(rep, "next", (what, front), Exp::Is(exp), it.next());
         if front < n {
@@ -135,6 +177,14 @@ fn run_tree_iters<Tr: TreeApi>(rep: &mut Rep, spec: &SeqSpec, seed: u64) {
         }
         c
     });
+    for k in [1usize, 2, 7, 256] {
+        let want: Vec<Tr::Item> = data.iter().copied().step_by(k).collect();
+        chk!(rep, "step_by", ("iter", k), Exp::Is(true), t.iter_box().step_by(k).collect::<Vec<_>>() == want);
+        let want: Vec<Tr::Item> = data.iter().rev().copied().skip(k).collect();
+        chk!(rep, "rev.skip", ("iter", k), Exp::Is(true), t.iter_box().rev().skip(k).collect::<Vec<_>>() == want);
+    }
+    chk!(rep, "count", "iter", Exp::Is(data.len()), t.iter_box().count());
+    chk!(rep, "last", "iter", Exp::Is(data.last().copied()), t.iter_box().last());
     rep.gate_add("tree_iterators_driven", 12);
 }
 
@@ -160,6 +210,15 @@ fn run_bit_iters(rep: &mut Rep, spec: &BitSpec) {
     drive_fwd(rep, "DArray::iter", da.iter(), Some(lf_iter), &bits, h);
     drive_fwd(rep, "DArray::ones", da.ones(), None, &ones, h);
     drive_fwd(rep, "DArray::zeros", da.zeros(), None, &zeros, h);
+    for k in [1usize, 3, 64, 65, 511, 512] {
+        let want: Vec<bool> = bits.iter().copied().step_by(k).collect();
+        chk!(rep, "step_by", ("BitVector::iter", k), Exp::Is(true), bv.iter().step_by(k).collect::<Vec<bool>>() == want);
+        chk!(rep, "step_by", ("BitVector::into_iter", k), Exp::Is(true), bv.clone().into_iter().step_by(k).collect::<Vec<bool>>() == want);
+        let want: Vec<usize> = ones.iter().copied().skip(k).collect();
+        chk!(rep, "skip", ("BitVector::ones", k), Exp::Is(true), bv.ones().skip(k).collect::<Vec<usize>>() == want);
+    }
+    chk!(rep, "count", "BitVector::iter", Exp::Is(bits.len()), bv.iter().count());
+    chk!(rep, "count", "BitVector::ones", Exp::Is(ones.len()), bv.ones().count());
     rep.gate_add("bit_iterators_driven", 12);
 }
 
@@ -177,6 +236,22 @@ fn run_quad_iters(rep: &mut Rep, spec: &QuadSpec) {
     let r512 = qwt::RSQVector512::from(qv);
     drive_fwd(rep, "RSQVector512::iter", r512.iter(), None, &data, h);
     drive_fwd(rep, "RSQVector512::into_iter", r512.into_iter(), None, &data, h);
+    // adaptors built on nth(): skip and step_by
+    for k in [1usize, 3, 5, 7, 255, 256, 257] {
+        let want: Vec<u8> = data.iter().copied().step_by(k).collect();
+        let qv2: QVector = data.iter().copied().collect();
+        chk!(rep, "step_by", ("QVector::iter", k), Exp::Is(true), qv2.iter().step_by(k).collect::<Vec<u8>>() == want);
+        chk!(rep, "step_by", ("QVector::into_iter", k), Exp::Is(true), qv2.clone().into_iter().step_by(k).collect::<Vec<u8>>() == want);
+        let want: Vec<u8> = data.iter().copied().skip(k).collect();
+        chk!(rep, "skip", ("QVector::iter", k), Exp::Is(true), qv2.iter().skip(k).collect::<Vec<u8>>() == want);
+        // consume a whole number of lines first, then jump
+        let mut it = qv2.iter();
+        let taken: Vec<u8> = it.by_ref().take(256.min(data.len())).collect();
+        let want: Vec<u8> = data.iter().copied().skip(taken.len()).skip(k).collect();
+        chk!(rep, "take(256) then skip", ("QVector::iter", k), Exp::Is(true), it.skip(k).collect::<Vec<u8>>() == want);
+    }
+    chk!(rep, "count", "QVector::iter", Exp::Is(data.len()), { let qv2: QVector = data.iter().copied().collect(); qv2.iter().count() });
+    chk!(rep, "last", "QVector::iter", Exp::Is(data.last().copied()), { let qv2: QVector = data.iter().copied().collect(); qv2.iter().last() });
     rep.gate_add("quad_iterators_driven", 8);
 }
 
